@@ -778,4 +778,168 @@ theorem keptSlices_toDense [Zero α] (cs : CS α) (mask : List Bool) :
     (keptSlices cs mask).toDense = filterMask cs.toDense mask := by
   rw [keptSlices, toDense_ofSlices, toDense_eq_slices, map_filterMask]
 
+/-! ### the two ways of computing the mask -/
+
+/-- positional zip of vectors, IDs and metadata arguments -/
+def callsOf : List (List α) → List Id → List (Option Md) → List (Call α)
+  | v :: vs, id :: ids, md :: mds => ⟨v, id, md⟩ :: callsOf vs ids mds
+  | _, _, _ => []
+
+def verdictOf (p : Pred α) (invert : Bool) (c : Call α) : Bool := p c.vec c.id c.md ^^ invert
+
+theorem toDense_drop [Zero α] (cs : CS α) (i : Nat) (hi : i < cs.nMajor) :
+    cs.toDense.drop i = CS.denseVec cs.nMinor (cs.slice i) :: cs.toDense.drop (i + 1) := by
+  have hl : i < cs.toDense.length := by simp [CS.toDense, hi]
+  rw [List.drop_eq_getElem_cons hl]
+  simp [CS.toDense]
+
+theorem denseVec_length [Zero α] (n : Nat) (ents : List (Nat × α)) : (CS.denseVec n ents).length = n := by
+  simp [CS.denseVec]
+
+/-- on sorted indices the predicate is handed the true vectors, whatever the buffer held -/
+theorem genMask_sorted [Zero α] (p : Pred α) (invert : Bool) (cs : CS α) (hs : cs.SortedIndices)
+    (hl : cs.indptr.length = cs.nMajor + 1) : ∀ (ids : List Id) (mds : List (Option Md)) (i : Nat) (buf : List α),
+    mds.length = ids.length → i + ids.length ≤ cs.nMajor → buf.length = cs.nMinor →
+    genMask p invert cs i ids mds buf =
+      .ok ((callsOf (cs.toDense.drop i) ids mds).map (verdictOf p invert), callsOf (cs.toDense.drop i) ids mds) := by
+  intro ids
+  induction ids with
+  | nil => intro mds i buf _ _ _; cases h : cs.toDense.drop i <;> simp [genMask, callsOf]
+  | cons id ids ih =>
+    intro mds i buf hm hi hb
+    cases mds with
+    | nil => simp at hm
+    | cons md mds =>
+      have hi' : i < cs.nMajor := by simp only [List.length_cons] at hi; omega
+      have hv : mergeRow buf (cs.slice i) 0 = CS.denseVec cs.nMinor (cs.slice i) :=
+        mergeRow_dense buf _ _ hb (hs i hi')
+      have := ih mds (i + 1) (CS.denseVec cs.nMinor (cs.slice i)) (by simpa using hm)
+        (by simp only [List.length_cons] at hi; omega) (denseVec_length _ _)
+      simp only [genMask, hl, show i + 1 < cs.nMajor + 1 by omega, if_true, hv, this, toDense_drop cs i hi', callsOf,
+        List.map_cons, verdictOf]
+
+theorem indexOf?_of_mem (ids : List Id) (k : Id) (h : k ∈ ids) : indexOf? ids k = some (ids.idxOf k) := by
+  simp [indexOf?, List.idxOf_lt_length_iff.mpr h]
+
+theorem indexOf?_of_not_mem (ids : List Id) (k : Id) (h : k ∉ ids) : indexOf? ids k = none := by
+  have : ¬ ids.idxOf k < ids.length := fun hlt => h (List.idxOf_lt_length_iff.mp hlt)
+  simp [indexOf?, this]
+
+theorem lookupAll_spec (ids keep : List Id) :
+    lookupAll ids keep = if keep.all (fun k => ids.contains k) then .ok (keep.map (ids.idxOf ·)) else .error .key := by
+  induction keep with
+  | nil => rfl
+  | cons k ks ih =>
+    by_cases hk : k ∈ ids
+    · have hc : ids.contains k = true := by simpa using hk
+      by_cases hall : ks.all (fun k => ids.contains k) = true
+      · simp only [lookupAll, indexOf?_of_mem ids k hk, ih, List.all_cons, hc, hall, Bool.true_and, if_true,
+          List.map_cons]
+      · simp only [lookupAll, indexOf?_of_mem ids k hk, ih, List.all_cons, hc, hall, Bool.true_and]
+        rfl
+    · have hc : ids.contains k = false := by simpa using hk
+      simp only [lookupAll, indexOf?_of_not_mem ids k hk, List.all_cons, hc, Bool.false_and]
+      rfl
+
+theorem foldl_set_getElem? (idx : List Nat) (m : List Bool) (j : Nat) :
+    (idx.foldl (fun m i => m.set i true) m)[j]? = m[j]?.map (fun b => b || idx.contains j) := by
+  induction idx generalizing m with
+  | nil => simp
+  | cons i is ih =>
+    simp only [List.foldl_cons, ih, List.contains_cons]
+    by_cases hij : i = j
+    · subst hij
+      by_cases hl : i < m.length
+      · simp [List.getElem?_set_self hl, List.getElem?_eq_getElem hl]
+      · have : m.length ≤ i := by omega
+        have h1 : (m.set i true)[i]? = none := List.getElem?_eq_none (by simpa using this)
+        rw [h1, List.getElem?_eq_none this]
+        rfl
+    · rw [List.getElem?_set_ne hij]
+      have : (j == i) = false := by simpa using fun h => hij h.symm
+      simp [this]
+
+theorem idMask_spec (ids keep : List Id) (invert : Bool) (hn : ids.Nodup) :
+    idMask ids keep invert =
+      if keep.all (fun k => ids.contains k) then .ok (ids.map (fun id => keep.contains id ^^ invert))
+      else .error .key := by
+  unfold idMask
+  rw [lookupAll_spec]
+  by_cases hall : keep.all (fun k => ids.contains k) = true
+  · rw [if_pos hall, if_pos hall]
+    simp only
+    congr 1
+    apply List.ext_getElem?
+    intro j
+    simp only [List.getElem?_map, foldl_set_getElem?]
+    by_cases hj : j < ids.length
+    · simp only [List.getElem?_replicate, hj, if_true, List.getElem?_eq_getElem hj, Option.map_some, Bool.false_or]
+      congr 2
+      -- position j is marked iff the ID standing there was named
+      rw [Bool.eq_iff_iff]
+      simp only [List.contains_iff_mem, List.mem_map]
+      constructor
+      · rintro ⟨k, hk, rfl⟩
+        have hkm : k ∈ ids := by
+          have := List.all_eq_true.mp hall k hk
+          simpa using this
+        rw [List.getElem_idxOf (List.idxOf_lt_length_iff.mpr hkm)]
+        exact hk
+      · intro hm
+        exact ⟨ids[j], hm, hn.idxOf_getElem j hj⟩
+    · have : ids.length ≤ j := by omega
+      simp [List.getElem?_eq_none this, List.getElem?_replicate, hj]
+  · rw [if_neg hall, if_neg hall]
+
+/-! ### transposition of rectangular grids -/
+
+theorem colAt_eq_map [Zero α] (rows : List (List α)) (j : Nat) (h : ∀ r ∈ rows, j < r.length) :
+    colAt rows j = rows.map (·.getD j 0) := by
+  induction rows with
+  | nil => rfl
+  | cons r rs ih =>
+    have hr : j < r.length := h r List.mem_cons_self
+    have := ih (fun r' hr' => h r' (List.mem_cons_of_mem _ hr'))
+    simp only [colAt] at this ⊢
+    simp [List.filterMap_cons, List.getElem?_eq_getElem hr, this, List.getD]
+
+theorem range_map_getD [Zero α] (l : List α) : (List.range l.length).map (l.getD · 0) = l := by
+  apply List.ext_getElem
+  · simp
+  · intro i h1 h2
+    simp [List.getD, List.getElem?_eq_getElem h2]
+
+theorem transposeGrid_col_length [Zero α] (rows : List (List α)) (m : Nat) (h : ∀ r ∈ rows, r.length = m) :
+    ∀ c ∈ transposeGrid m rows, c.length = rows.length := by
+  intro c hc
+  simp only [transposeGrid, List.mem_map, List.mem_range] at hc
+  obtain ⟨j, hj, rfl⟩ := hc
+  rw [colAt_eq_map rows j (fun r hr => by rw [h r hr]; exact hj)]
+  simp
+
+/-- the columns of a rectangular grid, filtered and transposed back, are the grid with every row filtered -/
+theorem transpose_filter [Zero α] (rows : List (List α)) (m : Nat) (mask : List Bool)
+    (h : ∀ r ∈ rows, r.length = m) :
+    transposeGrid rows.length (filterMask (transposeGrid m rows) mask) = rows.map (filterMask · mask) := by
+  apply List.ext_getElem
+  · simp [transposeGrid]
+  · intro i h1 h2
+    have hi : i < rows.length := by simpa using h2
+    have hri : rows[i].length = m := h _ (List.getElem_mem hi)
+    simp only [transposeGrid, List.getElem_map, List.getElem_range]
+    have hcol : ∀ c ∈ filterMask ((List.range m).map (colAt rows)) mask, i < c.length := by
+      intro c hc
+      have := transposeGrid_col_length rows m h c (mem_filterMask _ _ _ hc)
+      omega
+    rw [colAt_eq_map _ i hcol, map_filterMask, List.map_map]
+    congr 1
+    rw [← hri]
+    conv => rhs; rw [← range_map_getD rows[i]]
+    apply List.map_congr_left
+    intro j hj
+    have hj' : j < m := by rw [← hri]; exact List.mem_range.mp hj
+    simp only [Function.comp]
+    rw [colAt_eq_map rows j (fun r hr => by rw [h r hr]; exact hj')]
+    simp [List.getD, List.getElem?_eq_getElem hi]
+
 end Biom.C08
